@@ -44,6 +44,25 @@ func init() {
 		c10ConfChange(c)
 		gQuorumJoint(c)
 	}})
+	register(&PropertyRule{ID: "C01", Explain: "node-local structural necessary conditions of C01 (state-machine safety): see DESIGN.md §5 C01", Run: func(c *Check) {
+		gTrunc(c)
+		gCommitMono(c)
+		gApply(c)
+		gCommitLeader(c)
+		c06Follower(c)
+	}})
+	register(&PropertyRule{ID: "C04", Explain: "structural necessary conditions of C04 (leader completeness): see DESIGN.md §5 C04", Run: func(c *Check) {
+		gVote(c)
+		gCommitLeader(c)
+		gQuorumJoint(c)
+		c04Noop(c)
+		gAppendMatch(c)
+		gStamp(c)
+	}})
+	register(&PropertyRule{ID: "C11", Explain: "structural necessary conditions of C11 (ReadIndex, ReadOnlySafe): see DESIGN.md §5 C11", Run: func(c *Check) {
+		c11ReadIndex(c)
+		gQuorumJoint(c)
+	}})
 	register(&PropertyRule{ID: "C03", Explain: "structural necessary conditions of C03 (log matching): see DESIGN.md §5 C03", Run: func(c *Check) {
 		gTrunc(c)
 		gStable(c)
